@@ -11,13 +11,13 @@ cd $WT || exit 2
 git checkout -q -- . ; git clean -fdq
 git apply --check $OUT/$L.diff || { echo "patch does not apply"; exit 2; }
 cp $OUT/${L}_demo_test.go $WT/seed_demo_${L}_test.go
-demo_clean=$(go test -vet=off -count=1 -run 'SeedDemo' . 2>&1 | tail -1)
+demo_clean=$(go test -vet=off -count=1 -run 'Seed' . 2>&1 | tail -1)
 git apply $OUT/$L.diff
 suite=$(go test -vet=off -count=1 $(go list ./... ) 2>&1 | grep -v "no test files" | tail -1)
 rm -f $WT/seed_demo_${L}_test.go
 suite_nodemo=$(go test -vet=off -count=1 ./... 2>&1 | grep -v "no test files" | tail -1)
 cp $OUT/${L}_demo_test.go $WT/seed_demo_${L}_test.go
-demo_mut=$(go test -vet=off -count=1 -run 'SeedDemo' . 2>&1 | grep -E "^(--- FAIL|FAIL|ok|panic)" | head -3 | tr '\n' ' ')
+demo_mut=$(go test -vet=off -count=1 -run 'Seed' . 2>&1 | grep -E "^(--- FAIL|FAIL|ok|panic)" | head -3 | tr '\n' ' ')
 git checkout -q -- . ; git clean -fdq
 echo "suite with mutant (no demo): $suite_nodemo"
 echo "demo without mutant: $demo_clean"
